@@ -121,28 +121,36 @@ Proof.
   intros A l x r H. apply (f_equal (@rev A)) in H. rewrite rev_involutive in H. exact H.
 Qed.
 
+Lemma firstn_rev_suffix : forall {A} c (l : list A), exists pre, l = pre ++ rev (firstn c (rev l)).
+Proof.
+  intros A c l. exists (rev (skipn c (rev l))).
+  rewrite <- rev_app_distr, firstn_skipn, rev_involutive. reflexivity.
+Qed.
+
 Lemma attach_ok : forall ns chain k mk ns' c',
   attach ns chain k mk = (POk ns', c') ->
   exists q vs, lastv (values ns) = Some (VQ q) /\ mk q = Some vs /\ values ns' = values ns ++ vs.
 Proof.
   intros ns chain k mk ns' c' H. unfold attach, last_of in H.
   destruct (rev ns) as [|p l] eqn:E; [discriminate|].
-  apply rev_eq_cons in E. subst ns.
   destruct p as [q|k0 vs0 sh].
-  - destruct (mk q) as [vs|] eqn:M; [|discriminate]. inversion H; subst; clear H.
+  - apply rev_eq_cons in E. subst ns.
+    destruct (mk q) as [vs|] eqn:M; [|discriminate]. inversion H; subst; clear H.
     exists q, vs. rewrite !values_app. cbn [values flat_map pnode_values app].
     unfold drop_last. rewrite removelast_last.
     split; [|split]; auto.
     + apply lastv_snoc.
     + rewrite app_nil_r, <- app_assoc. reflexivity.
-  - destruct (Nat.leb 2 chain); [discriminate|].
-    destruct (rev vs0) as [|v vr] eqn:Ev; [discriminate|].
+  - destruct (rev (chain_vals ns chain)) as [|v vr] eqn:Ev; [discriminate|].
     destruct v as [q| |]; try discriminate.
     destruct (mk q) as [vs|] eqn:M; [|discriminate]. inversion H; subst; clear H.
     exists q, vs. split; [|split]; auto.
-    + rewrite values_app. cbn [values flat_map pnode_values]. rewrite app_nil_r.
-      apply rev_eq_cons in Ev. subst vs0. rewrite app_assoc. apply lastv_snoc.
-    + rewrite (values_app (rev l ++ [PSc k0 vs0 sh])). cbn [values flat_map pnode_values]. rewrite app_nil_r. reflexivity.
+    + unfold chain_vals in Ev. destruct (firstn_rev_suffix chain ns) as [pre Hp].
+      rewrite Hp at 1. rewrite values_app.
+      assert (Hv : values (rev (firstn chain (rev ns))) = flat_map pnode_vals (rev (firstn chain (rev ns)))).
+      { unfold values. apply flat_map_ext. intros [x|x y z]; reflexivity. }
+      rewrite Hv. apply rev_eq_cons in Ev. rewrite Ev. rewrite app_assoc. apply lastv_snoc.
+    + rewrite values_app. cbn [values flat_map pnode_values]. rewrite app_nil_r. reflexivity.
 Qed.
 
 Lemma Forall2_app_veq : forall a b c d, Forall2 veq a b -> Forall2 veq c d -> Forall2 veq (a ++ c) (b ++ d).
@@ -202,7 +210,6 @@ Proof.
       cbn [parse_aux] in H.
       destruct r as [|t2 r2]; [discriminate|].
       destruct t2 as [e| | | | | |]; try discriminate.
-      destruct (qzero e); [discriminate|].
       destruct (attach ns chain KI _) as [[ns1|er] c1] eqn:A; [|discriminate].
       apply attach_ok in A. destruct A as [q [vs [Hl [Hm Hv1]]]].
       inversion Hm; subst vs; clear Hm.
@@ -255,18 +262,157 @@ Proof.
   exists out. cbn in Hv. subst vs'. split; auto.
 Qed.
 
-(* the parser does not read every list the manual gives a meaning to: three shortcuts in a row crash it
-   (AttributeError), an interpolation that ends at 0 is rejected (the end must be a NUMBER token, 0 is NULL) *)
-Lemma read_total_refuted :
+
+Lemma rev_repeat' : forall {A} (v : A) n, rev (repeat v n) = repeat v n.
+Proof. induction n; [reflexivity|]. cbn [repeat rev]. rewrite IHn. symmetry. apply repeat_cons. Qed.
+
+(* ------------------------------------------------------------------ ... and the parser accepts every list the manual
+   gives a meaning to, except a '0J' (a jump over nothing) directly in front of a shortcut *)
+Definition no_zero_jump (ts : list tok) : bool :=
+  forallb (fun t => match t with TJmp (Some O) => false | _ => true end) ts.
+
+Definition chain_inv (ns : list pnode) (chain : nat) : Prop :=
+  match rev ns with
+  | [] => chain = 0%nat
+  | PVal _ :: _ => True
+  | PSc _ _ _ :: _ => exists v, hd_error (rev (chain_vals ns chain)) = Some v /\ lastv (values ns) = Some v
+  end.
+
+Lemma values_pnode_vals : forall l, flat_map pnode_vals l = values l.
+Proof. intros. unfold values. apply flat_map_ext. intros [x|x y z]; reflexivity. Qed.
+
+Lemma chain_vals_snoc : forall ns p c, chain_vals (ns ++ [p]) (S c) = chain_vals ns c ++ pnode_vals p.
+Proof.
+  intros. unfold chain_vals. rewrite rev_unit. cbn [firstn rev]. rewrite flat_map_app. cbn [flat_map].
+  rewrite app_nil_r. reflexivity.
+Qed.
+
+Lemma attach_total : forall ns chain k mk q vs,
+  chain_inv ns chain -> lastv (values ns) = Some (VQ q) -> mk q = Some vs ->
+  exists ns' c', attach ns chain k mk = (POk ns', c') /\ chain_inv ns' c' /\ values ns' = values ns ++ vs.
+Proof.
+  intros ns chain k mk q vs I Hl Hm. unfold attach, last_of. unfold chain_inv in I.
+  destruct (rev ns) as [|p l] eqn:E.
+  - apply (f_equal (@rev pnode)) in E. rewrite rev_involutive in E. subst ns. discriminate.
+  - pose proof (rev_eq_cons _ _ _ E) as En.
+    destruct p as [q0|k0 vs0 sh].
+    + assert (q0 = q).
+      { subst ns. rewrite values_app in Hl. cbn [values flat_map pnode_values] in Hl. rewrite app_nil_r in Hl.
+        rewrite lastv_snoc in Hl. inversion Hl. reflexivity. }
+      subst q0. rewrite Hm.
+      exists (drop_last ns ++ [PSc k (VQ q :: vs) false]), 1%nat. split; [reflexivity|].
+      subst ns. unfold drop_last. rewrite removelast_last. split.
+      * unfold chain_inv. rewrite rev_unit. exists (match rev vs with [] => VQ q | v :: _ => v end).
+        rewrite chain_vals_snoc. unfold chain_vals. cbn [firstn rev flat_map app pnode_vals].
+        rewrite values_app. cbn [values flat_map pnode_values]. rewrite app_nil_r.
+        rewrite lastv_app by discriminate. unfold lastv.
+        cbn [rev]. destruct (rev vs); cbn; auto.
+      * rewrite !values_app. cbn [values flat_map pnode_values app]. rewrite app_nil_r, <- app_assoc. reflexivity.
+    + destruct I as [v [Hv Hlv]]. rewrite Hl in Hlv. inversion Hlv; subst v. unfold hd_error in Hv.
+      destruct (rev (chain_vals ns chain)) as [|v0 vr] eqn:Ec; [discriminate|]. inversion Hv; subst v0.
+      rewrite Hm. exists (ns ++ [PSc k vs true]), (S chain). split; [reflexivity|]. split.
+      * unfold chain_inv. rewrite rev_unit.
+        rewrite chain_vals_snoc. cbn [pnode_vals]. rewrite values_app. cbn [values flat_map pnode_values].
+        rewrite app_nil_r. apply rev_eq_cons in Ec. rewrite Ec.
+        destruct vs as [|x vs'].
+        -- exists (VQ q). rewrite !app_nil_r. rewrite rev_unit. split; [reflexivity|exact Hl].
+        -- exists (match rev (x :: vs') with [] => VQ q | v :: _ => v end).
+           rewrite rev_app_distr. rewrite lastv_app by discriminate. unfold lastv.
+           destruct (rev (x :: vs')) eqn:Er.
+           ++ apply (f_equal (@rev val)) in Er. rewrite rev_involutive in Er. discriminate.
+           ++ cbn. auto.
+      * rewrite values_app. cbn [values flat_map pnode_values]. rewrite app_nil_r. reflexivity.
+Qed.
+
+Lemma read_total_aux : forall n ts, (List.length ts <= n)%nat -> forall ns chain out,
+  no_zero_jump ts = true -> chain_inv ns chain ->
+  spec_expand_aux (lastv (values ns)) ts = Some out ->
+  exists ns', parse_aux ts ns chain = POk ns'.
+Proof.
+  induction n as [|n IH]; intros ts Hlen ns chain out Hz I H.
+  - destruct ts; [|cbn in Hlen; lia]. eexists; reflexivity.
+  - destruct ts as [|t r]; [eexists; reflexivity|].
+    cbn [List.length] in Hlen. cbn [no_zero_jump forallb] in Hz. apply andb_true_iff in Hz. destruct Hz as [Ht Hz].
+    destruct t as [q|c|c|c|c|x|].
+    + cbn [parse_aux]. cbn [spec_expand_aux] in H.
+      destruct (spec_expand_aux (Some (VQ q)) r) as [o|] eqn:Es; [|discriminate].
+      eapply (IH r); [lia|exact Hz| |].
+      * unfold chain_inv. rewrite rev_unit. trivial.
+      * rewrite values_app. cbn [values flat_map pnode_values]. rewrite app_nil_r, lastv_snoc. exact Es.
+    + cbn [parse_aux]. cbn [spec_expand_aux] in H. unfold expand_jump.
+      assert (Hc : (0 < cnt c)%nat) by (destruct c as [[|k]|]; cbn; try lia; discriminate).
+      destruct (cnt c) as [|k] eqn:Ec; [lia|].
+      destruct (spec_expand_aux (Some VJ) r) as [o|] eqn:Es; [|discriminate].
+      eapply (IH r); [lia|exact Hz| |].
+      * unfold chain_inv. rewrite rev_unit. exists VJ.
+        rewrite chain_vals_snoc. unfold chain_vals. cbn [firstn rev flat_map app pnode_vals].
+        rewrite values_app. cbn [values flat_map pnode_values]. rewrite app_nil_r.
+        rewrite lastv_app by discriminate. rewrite lastv_repeat by lia. split; [|reflexivity].
+        change (VJ :: repeat VJ k) with (repeat VJ (S k)). rewrite rev_repeat'. reflexivity.
+      * rewrite values_app. cbn [values flat_map pnode_values]. rewrite app_nil_r.
+        rewrite lastv_app by discriminate. rewrite lastv_repeat by lia. exact Es.
+    + cbn [parse_aux]. cbn [spec_expand_aux] in H.
+      destruct (lastv (values ns)) as [[q| |]|] eqn:El; try discriminate.
+      destruct (spec_expand_aux (Some (VQ q)) r) as [o|] eqn:Es; [|discriminate].
+      destruct (attach_total ns chain KR (fun q0 => Some (expand_repeat (VQ q0) (cnt c))) q _ I El eq_refl)
+        as [ns1 [c1 [Ha [I1 Hv]]]].
+      rewrite Ha. eapply (IH r); [lia|exact Hz|exact I1|].
+      rewrite Hv. unfold expand_repeat.
+      assert (Hp : lastv (values ns ++ repeat (VQ q) (cnt c)) = Some (VQ q)).
+      { destruct (cnt c) eqn:Ec; cbn [repeat]; [rewrite app_nil_r; exact El|].
+        rewrite lastv_app by discriminate. change (VQ q :: repeat (VQ q) n0) with (repeat (VQ q) (S n0)).
+        apply lastv_repeat; lia. }
+      rewrite Hp. exact Es.
+    + cbn [parse_aux]. cbn [spec_expand_aux] in H.
+      destruct r as [|t2 r2]; [discriminate|].
+      destruct t2 as [e| | | | | |]; try discriminate.
+      destruct (lastv (values ns)) as [[q| |]|] eqn:El; try discriminate.
+      destruct (spec_expand_aux (Some (VQ e)) r2) as [o|] eqn:Es; [|discriminate].
+      destruct (attach_total ns chain KI (fun q0 => Some (expand_interpolate q0 e (cnt c) ++ [VQ e])) q _ I El eq_refl)
+        as [ns1 [c1 [Ha [I1 Hv]]]].
+      rewrite Ha. cbn [List.length] in Hlen. cbn [forallb] in Hz. apply andb_true_iff in Hz. destruct Hz as [_ Hz].
+      eapply (IH r2); [lia|exact Hz|exact I1|].
+      rewrite Hv, app_assoc, lastv_snoc. exact Es.
+    + cbn [parse_aux]. cbn [spec_expand_aux] in H.
+      destruct r as [|t2 r2]; [discriminate|].
+      destruct t2 as [e| | | | | |]; try discriminate.
+      destruct (lastv (values ns)) as [[q| |]|] eqn:El; try discriminate.
+      destruct (qpos q && qpos e) eqn:Hp; [|discriminate].
+      destruct (spec_expand_aux (Some (VQ e)) r2) as [o|] eqn:Es; [|discriminate].
+      assert (Hze : qzero e = false).
+      { apply andb_true_iff in Hp. destruct Hp as [_ Hp]. unfold qpos in Hp. apply negb_true_iff in Hp.
+        unfold qzero. destruct (Qeq_bool e 0) eqn:Eq; [|reflexivity].
+        apply Qeq_bool_iff in Eq. assert (Hle : Qle_bool e 0 = true) by (apply Qle_bool_iff; rewrite Eq; apply Qle_refl).
+        congruence. }
+      rewrite Hze.
+      destruct (attach_total ns chain KL
+                  (fun q0 => if qpos q0 && qpos e then Some (expand_log q0 e (cnt c) ++ [VQ e]) else None) q
+                  (expand_log q e (cnt c) ++ [VQ e]) I El) as [ns1 [c1 [Ha [I1 Hv]]]].
+      { rewrite Hp. reflexivity. }
+      rewrite Ha. cbn [List.length] in Hlen. cbn [forallb] in Hz. apply andb_true_iff in Hz. destruct Hz as [_ Hz].
+      eapply (IH r2); [lia|exact Hz|exact I1|].
+      rewrite Hv, app_assoc, lastv_snoc. exact Es.
+    + cbn [parse_aux]. cbn [spec_expand_aux] in H.
+      destruct (lastv (values ns)) as [[q| |]|] eqn:El; try discriminate.
+      destruct (spec_expand_aux (Some (VQ (q * x))) r) as [o|] eqn:Es; [|discriminate].
+      destruct (attach_total ns chain KM (fun q0 => Some [expand_multiply q0 x]) q _ I El eq_refl)
+        as [ns1 [c1 [Ha [I1 Hv]]]].
+      rewrite Ha. eapply (IH r); [lia|exact Hz|exact I1|].
+      rewrite Hv, lastv_snoc. exact Es.
+    + cbn in H. discriminate.
+Qed.
+
+Theorem read_total : forall ts out,
+  spec_expand ts = Some out -> no_zero_jump ts = true -> exists ns, parse_list ts = POk ns.
+Proof.
+  intros ts out H Hz. unfold parse_list, spec_expand in *.
+  eapply (read_total_aux (List.length ts) ts (le_n _) [] 0%nat out Hz); [reflexivity|exact H].
+Qed.
+
+(* a jump over nothing in front of a shortcut crashes the parser (IndexError) *)
+Lemma read_zero_jump_refuted :
   exists ts out, spec_expand ts = Some out /\ parse_list ts = PErr PCrash.
-Proof.
-  exists [TNum 1; TRep (Some 2%nat); TRep (Some 3%nat); TRep (Some 4%nat)]. eexists. split; vm_compute; reflexivity.
-Qed.
-Lemma read_zero_end_refuted :
-  exists ts out, spec_expand ts = Some out /\ parse_list ts = PErr PReject.
-Proof.
-  exists [TNum 1; TInt (Some 2%nat); TNum 0]. eexists. split; vm_compute; reflexivity.
-Qed.
+Proof. exists [TNum 1; TJmp (Some 0%nat); TRep None]. eexists. split; vm_compute; reflexivity. Qed.
 
 (* ================================================================== Part 2: consumption *)
 Require Import Lqa.
@@ -1949,9 +2095,9 @@ Lemma read_J : forall n, parse_list [TJmp n] = POk [PSc KJ (repeat VJ (cnt n)) f
 Proof. reflexivity. Qed.
 Lemma read_M : forall q x, parse_list [TNum q; TMul x] = POk [PSc KM [VQ q; VQ (q * x)] false].
 Proof. reflexivity. Qed.
-Lemma read_I : forall a b n, qzero b = false ->
+Lemma read_I : forall a b n,
   parse_list [TNum a; TInt n; TNum b] = POk [PSc KI (VQ a :: expand_interpolate a b (cnt n) ++ [VQ b]) false].
-Proof. intros a b n H. unfold parse_list. cbn [parse_aux app]. rewrite H. reflexivity. Qed.
+Proof. reflexivity. Qed.
 Lemma read_L : forall a b n, qzero b = false -> qpos a && qpos b = true ->
   parse_list [TNum a; TLog n; TNum b] = POk [PSc KL (VQ a :: log_steps a b (cnt n) 1 (cnt n) ++ [VQ b]) false].
 Proof.
@@ -1959,8 +2105,6 @@ Proof.
   unfold attach, last_of. cbn [rev app]. rewrite Hp. rewrite expand_log_spec. reflexivity.
 Qed.
 (* a shortcut chained onto another one starts from the other one's last value *)
-Lemma rev_repeat' : forall {A} (v : A) n, rev (repeat v n) = repeat v n.
-Proof. induction n; [reflexivity|]. cbn [repeat rev]. rewrite IHn. symmetry. apply repeat_cons. Qed.
 
 Lemma read_chain : forall q n m,
   parse_list [TNum q; TRep n; TRep m]
@@ -1968,5 +2112,6 @@ Lemma read_chain : forall q n m,
 Proof.
   intros q n m. unfold parse_list, attach, last_of, expand_repeat, drop_last. cbn [parse_aux app rev removelast].
   unfold attach, last_of, expand_repeat, drop_last. cbn [app rev removelast].
+  unfold chain_vals. cbn [rev app firstn flat_map pnode_vals]. rewrite app_nil_r. cbn [rev].
   rewrite rev_repeat', <- repeat_cons. reflexivity.
 Qed.
